@@ -128,6 +128,9 @@ register(PropertySpec(
         Rule("COVERAGE-AFTER-COMPLETION", history.rule_coverage_after_completion, 6,
              "coverage writes into result caches that a yield can follow require every public entry to invalidate the "
              "tree's result caches on each exceptional / close exit"),
+        Rule("INTERNAL-ABANDON", history.rule_internal_abandon, 1,
+             "engine code that leaves a loop over an evaluation stream early (break/return) invalidates the result caches "
+             "of the abandoned producer; next()-consumers are a frozen table of exceptions with reasons"),
         Rule("NO-DOMAIN-MUTATION", history.rule_no_domain_mutation, 3,
              "no mutating operation is applied to a value that is the user's domain object"),
     ],
@@ -261,6 +264,9 @@ register(PropertySpec(
     id="C05",
     title="result caching is transparent",
     rules=[
+        Rule("INTERNAL-ABANDON", history.rule_internal_abandon, 1,
+             "engine code that leaves a loop over an evaluation stream early invalidates the result caches of the "
+             "abandoned producer (otherwise results differ between caching enabled and disabled)"),
         Rule("CACHE-SWITCH", cacheidx.rule_cache_switch, 6,
              "every result-cache read in an evaluation generator is reachable only when is_caching_enabled() holds "
              "(truth table of its guards), given that writes are suppressed when caching is disabled"),
